@@ -21,6 +21,8 @@ pub enum AppState {
     Idle,
     /// outstanding QoS 1, QoS 2, subscribe and unsubscribe sends (ids 1..4)
     BusySends,
+    /// the same four sends issued in rotated order, so that each kind is the oldest outstanding one (ids follow the order)
+    BusySendsRot(u8),
     /// a QoS 2 send whose PUBREC has been received (receipt held by the application)
     BusyReceipt,
     /// two inbound publishes (ids 1, 2) inside gated handlers
@@ -132,9 +134,19 @@ pub async fn run_case(c: Case) -> Result<CaseInfo, Failure> {
         eut.settle().await;
     }
     match c.state {
-        AppState::BusySends => {
-            for kind in [SendKind::Qos1, SendKind::Qos2, SendKind::Subscribe, SendKind::Unsubscribe] {
-                futs.push(Some(eut.send(SendSpec { kind, topic: "s/t".into(), payload: b"p".to_vec(), pid: None, user_prop: None })));
+        AppState::BusySends | AppState::BusySendsRot(_) => {
+            let mut kinds = vec![SendKind::Qos1, SendKind::Qos2, SendKind::Subscribe, SendKind::Unsubscribe];
+            if let AppState::BusySendsRot(k) = c.state {
+                kinds.rotate_left(usize::from(k) % 4);
+            }
+            for kind in kinds {
+                let mut fut = eut.send(SendSpec { kind, topic: "s/t".into(), payload: b"p".to_vec(), pid: None, user_prop: None });
+                // polled at once: the sends register (and take their ids) in this order
+                let waker = futures_noop_waker();
+                let mut cx = std::task::Context::from_waker(&waker);
+                if fut.as_mut().poll(&mut cx).is_pending() {
+                    futs.push(Some(fut));
+                }
             }
         }
         AppState::BusyReceipt => {
@@ -301,7 +313,7 @@ fn exhaustive(ctx: &Ctx) -> Stats {
             let l2 = len - 1;
             for l in 1..=l2 {
                 let total = a.pow(l as u32);
-                for state in [AppState::BusyReceipt, AppState::BusyHandlers] {
+                for state in [AppState::BusyReceipt, AppState::BusyHandlers, AppState::BusySendsRot(1), AppState::BusySendsRot(2), AppState::BusySendsRot(3)] {
                     let mut idx = shard;
                     while idx < total {
                         let mut x = idx;
@@ -319,7 +331,7 @@ fn exhaustive(ctx: &Ctx) -> Stats {
 
 fn case_strategy(role: Role) -> BoxedStrategy<Case> {
     (
-        prop::sample::select(vec![AppState::Idle, AppState::BusySends, AppState::BusyReceipt, AppState::BusyHandlers, AppState::NoHandshake]),
+        prop::sample::select(vec![AppState::Idle, AppState::BusySends, AppState::BusySendsRot(1), AppState::BusySendsRot(2), AppState::BusySendsRot(3), AppState::BusyReceipt, AppState::BusyHandlers, AppState::NoHandshake]),
         prop::collection::vec(0u8..40, 4..13),
     )
         .prop_map(move |(state, seq)| Case { role, state, seq })
@@ -339,7 +351,7 @@ pub fn run(ctx: &Ctx, started: Instant) -> i32 {
         level: "exploration",
         rule: "alphabet of 26 (v3) / 30 (v5) well-formed packet templates (every packet type either peer could emit, ids 1/2, PUBLISH QoS 0/1/2, a PUBLISH head whose payload is still owed and a payload tail, \
                acknowledgements of every type, CONNECT/CONNACK, DISCONNECT with/without session expiry, AUTH, PING both directions); every sequence of length <=3 (thorough <=4) after the handshake against an idle \
-               application and against outstanding QoS1/QoS2/subscribe/unsubscribe sends, and replacing the handshake; length <=2 (3) against a held QoS 2 receipt and two gated inbound handlers; random sequences of \
+               application and against outstanding QoS1/QoS2/subscribe/unsubscribe sends, and replacing the handshake; length <=2 (3) against a held QoS 2 receipt, two gated inbound handlers and the outstanding sends in the three rotated orders (each kind oldest); random sequences of \
                4..12 packets. Oracle: no panic in any task (application futures are polled by the driver), settle reaches a fixed point, at quiescence the connection is ended (at most one Stop) or alive and \
                answering a probe, all input consumed, after the peer closes the connection task finishes and every pending send resolves. Non-trivial = the sequence contains a packet unexpected in its protocol state; \
                distinct = (role, app state, sequence)"
